@@ -86,13 +86,14 @@ def run(replay=None):
     wd = C.workdir(PID)
     t, sd = C.tier(), C.seed()
     if t == "quick":
-        r = C.run_tlc(wd, "Composite", cfg(3, [1, 2, 3], [1, 2], True))
-        nconc = 4
+        r = C.run_tlc(wd, "Composite", cfg(3, [1, 2], [1, 2], True))
+        nconc = 6
     else:
         r = C.run_tlc(wd, "Composite", cfg(3, [1, 2, 3, 4], [1, 2, 3], True))
         nconc = 16
     if r.violated:
         V.notes.append("TLC: Sound violated on the rational model: " + r.cex[:800])
+    tlc_wall = r.wall
     rnd = random.Random(sd * 611953 + 3)
     cases = []
     for rec in r.records:
@@ -130,7 +131,7 @@ def run(replay=None):
                      "natural": c[1]["natural"], "obligations": [o["name"] for o in c[0]["obl"]][:8]} for c in cases[5:8] + cases[-2:]],
         "exhaustive": False,
         "scenario_kinds": kinds,
-        "tlc_sound": "ok" if not r.violated else "counterexample",
+        "tlc_sound": "ok" if not r.violated else "counterexample", "tlc_wall_s": round(tlc_wall, 1),
         "tlc_mutants_noticed": MUTANTS,
     })
     from . import materials_adapter as A
